@@ -1269,6 +1269,27 @@ static void do_bad(const Op* o) {
   var obj = c->obj;
   long tl = tok_live();
   progress(g_opidx, "C12", "bad");
+  if (kind >= 28 && (g_focus == 12 || g_focus == 0)) {
+    /* value-type receivers that are not containers of the plan: a Range view and the NULL object */
+    if (kind == 28 || kind == 29) {
+      int64_t m = 1 + ((x % 9) + 9) % 9;
+      int64_t far_[] = { m, -m - 1, m + 1000, INT64_MAX, -m - 1000 };
+      int64_t bi = far_[((x / 9 % 5) + 5) % 5];
+      var rg = range($I(m));
+      what = "range-get-out-of-range"; acc = X_IOOB;
+      try { get(rg, $I(bi)); } catch (e) { ex = e; }
+      if (len(rg) != (size_t)m) viol("C12", "C12:state-changed:range-get-out-of-range:Range", "a failed get changed the Range");
+    } else {
+      what = "null-object"; acc = X_VALUE;
+      try { if (kind == 30) len(NULL); else push(NULL, $I(1)); } catch (e) { ex = e; }
+    }
+    g_lastop = what;
+    stat_add("bad.injected", 1);
+    { char k[48]; snprintf(k, sizeof k, "bad.%s", what); stat_add(k, 1); }
+    if (ex is NULL) { char cls[96]; snprintf(cls, sizeof cls, "C12:no-exception:%s", what); viol("C12", cls, "invalid call '%s' raised nothing", what); }
+    if (!(xbit(ex) & acc)) { char cls[96]; snprintf(cls, sizeof cls, "C12:wrong-exception:%s", what); viol("C12", cls, "invalid call '%s' raised %s", what, exc_name(ex)); }
+    return;
+  }
   if (is_seq(c->kind)) {
     int64_t far_[] = { n, -(int64_t)n - 1, n + 1000, INT64_MAX, INT64_MIN, -(int64_t)n - 1000 };
     int64_t bi = far_[((x % 6) + 6) % 6];
@@ -1626,7 +1647,7 @@ static void nontrivial_eval(void) {
                "bad.push_at-out-of-range", "bad.rem-absent", "bad.get-null-key", "bad.resize-tuple-grow", "bad.get-absent", "bad.set-wrong-key-type",
                "bad.set-wrong-value-type", "bad.get-wrong-key-type", "bad.mem-wrong-key-type", "bad.rem-wrong-key-type", "bad.resize-below-len",
                "bad.resize-tree-nonzero", "bad.set-null-value", "bad.unimplemented-class", "bad.index-not-int", "bad.concat-null", "bad.concat-no-c_str",
-               "bad.assign-null", "bad.print-too-few-args", "bad.push-wrong-type", NULL };
+               "bad.assign-null", "bad.print-too-few-args", "bad.push-wrong-type", "bad.range-get-out-of-range", "bad.null-object", NULL };
                for (int i = 0; ks[i]; i++) kinds += stat_get(ks[i]) > 0;
                nt = kinds >= 5 && stat_get("seq.maxlen") + stat_get("table.max_slots") >= 2; break; }
     case 16: nt = stat_get("str.rem_middle") > 0 && stat_get("str.grow_after_shrink") > 0; break;
